@@ -37,7 +37,7 @@ input == <<lines, expect, sig>>
 parsed == <<desc, params, ptypes, attrs, atypes, excs, ret, rtype>>
 
 \* aliasmod: a module in which every documented name is imported from a package that is not loaded (unresolvable alias)
-Parents == {"none", "module", "class", "function", "init", "property", "tuplefn", "genfn", "aliasmod"}
+Parents == {"none", "module", "class", "function", "init", "property", "tuplefn", "genfn", "aliasmod", "tupleprop", "tuple0fn", "gen1fn", "gen2fn", "iterfn"}
 FieldKinds == {"type", "param", "vartype", "var", "raises", "returns", "rtype"}
 Names == {"x", "y"}
 
@@ -46,12 +46,15 @@ Text  == [k |-> "text", fk |-> "-", sh |-> "-", nm |-> "-"]
 Cont  == [k |-> "cont", fk |-> "-", sh |-> "-", nm |-> "-"]
 TextC == [k |-> "text", fk |-> "-", sh |-> "colon", nm |-> "-"]
 ContC == [k |-> "cont", fk |-> "-", sh |-> "colon", nm |-> "-"]
+\* indented continuation line that starts with an inline role, ":class:`Beta` that is used": its first non-blank character is a
+\* colon, but the line itself does not start with one, so it does NOT end the field
+ContR == [k |-> "cont", fk |-> "-", sh |-> "role", nm |-> "-"]
 Other == [k |-> "other", fk |-> "-", sh |-> "-", nm |-> "-"]
 Field(fk, sh, nm) == [k |-> "field", fk |-> fk, sh |-> sh, nm |-> nm]
 
 Mini == {Blank, Text, Cont, Field("param", "name", "x"), Field("param", "typed", "x"), Field("type", "name", "x"),
          Field("var", "name", "x"), Field("var", "empty", "-"), Field("returns", "bare", "-"), Field("rtype", "bare", "-"), Field("raises", "name", "x")}
-Core == Mini \cup {Other, TextC, ContC, Field("returns", "open", "x"), Field("param", "name", "y"), Field("param", "bare", "-"), Field("param", "empty", "-"), Field("param", "open", "x"),
+Core == Mini \cup {Other, TextC, ContC, ContR, Field("returns", "open", "x"), Field("param", "name", "y"), Field("param", "bare", "-"), Field("param", "empty", "-"), Field("param", "open", "x"),
                    Field("param", "long", "x"), Field("type", "bare", "-"), Field("vartype", "name", "x"), Field("raises", "bare", "-"), Field("returns", "name", "x")}
 Rich == Core \cup {Field(fk, "open", "x") : fk \in FieldKinds} \cup {Field(fk, "empty", "-") : fk \in FieldKinds}
            \cup {Field("var", "name", "y"), Field("type", "name", "y"), Field("vartype", "name", "y"), Field("var", "typed", "x"), Field("rtype", "name", "x")}
@@ -64,7 +67,7 @@ InRange(i) == i >= 0 /\ i < N
 StartsWithColon(ln) == ln.k \in {"field", "other"}         \* lines[i].startswith(":")
 IsBlank(ln) == ln.k = "blank"
 \* _parse_directive works on the CONSOLIDATED line: `_, directive, value = line.split(":", 2)`; directive.split(" ")
-HasColon(ln) == ln.k \in {"field", "other"} \/ ln.sh = "colon"
+HasColon(ln) == ln.k \in {"field", "other"} \/ ln.sh \in {"colon", "role"}
 \* fewer than three parts: the field line has no closing colon and no consolidated continuation line brings one
 Invalid(ln, body) == ln.sh = "open" /\ \A j \in 1..Len(body) : ~HasColon(L(body[j]))
 \* an "open" field closed by a later colon has the words up to that colon as extra directive parts: four or more
@@ -102,7 +105,8 @@ CleandocFixedPoint(d) ==
   /\ (Len(d) > 1 => \E j \in 2..Len(d) : d[j].k \notin {"blank", "cont"})
 
 \* ---- struct mode: summary, then fields ---------------------------------------------------------------------------
-Shapes == CASE Variety = "full" -> {"one", "two", "blank"} [] Variety = "thin" -> {"one", "two"} [] OTHER -> {"blank"}
+\* description shapes: one line; + an indented line; + a blank line and an indented line; + an indented line starting with a role
+Shapes == CASE Variety = "full" -> {"one", "two", "blank", "role"} [] Variety = "thin" -> {"one", "two", "role"} [] OTHER -> {"blank"}
 \* parameter: how its type is written: "inline" `:param int x:`, "field" a `:type x:` line after it, "before" a `:type x:` line
 \* before it, "none" (then the signature may supply it)
 SA == IF Variety = "mini" THEN {FALSE} ELSE BOOLEAN
@@ -119,7 +123,7 @@ StructOK(st) ==
   /\ Cardinality({j \in 1..Len(st) : st[j].kind = "returns"}) <= 1
   /\ \A j \in 1..Len(st) : (st[j].it.ty # "none" => ~st[j].it.sann)      \* a written type: the signature is not asked
 
-DescCont(shape) == CASE shape = "one" -> <<>> [] shape = "two" -> <<Cont>> [] OTHER -> <<Blank, Cont>>
+DescCont(shape) == CASE shape = "one" -> <<>> [] shape = "two" -> <<Cont>> [] shape = "role" -> <<ContR>> [] OTHER -> <<Blank, Cont>>
 TypeFieldOf(kind) == CASE kind = "parameters" -> "type" [] kind = "attributes" -> "vartype" [] OTHER -> "rtype"
 MainFieldOf(kind) == CASE kind = "parameters" -> "param" [] kind = "attributes" -> "var" [] kind = "raises" -> "raises" [] OTHER -> "returns"
 \* lines of one documented thing, with the 0-based index of its main field line
